@@ -204,6 +204,15 @@ def run_catalogue(tag, schemas, tier, seed, configs_for=None, machine="view", k_
     cpath = os.path.join(vlib.CACHE, "view", "%s-%s.json" % (tag, key))
     if os.path.exists(cpath) and os.environ.get("VERIF_NOCACHE") != "1":
         return json.load(open(cpath))
+    # several checks share one pipeline (and its work directory): the first one
+    # computes it, concurrent ones wait and then read the cached result
+    with vlib.file_lock(os.path.join(vlib.CACHE, "view", ".lock-" + tag)):
+        if os.path.exists(cpath) and os.environ.get("VERIF_NOCACHE") != "1":
+            return json.load(open(cpath))
+        return _run_catalogue(tag, cpath, schemas, tier, seed, configs_for, machine, k_for)
+
+
+def _run_catalogue(tag, cpath, schemas, tier, seed, configs_for, machine, k_for):
     wd = vlib.ensure_dir(os.path.join(vlib.WORK, "view-" + tag))
     base = CONFIGS_THOROUGH if tier == "thorough" else CONFIGS_QUICK
 
